@@ -229,7 +229,7 @@ def _reduce_case(case):
 def streams(tier, avoid):
     big = tier == "thorough"
     mn = 14 if big else 9
-    o = G.Opts(max_nodes=mn, phases=True, avoid=avoid, min_nodes=3)
+    o = G.Opts(max_nodes=mn, phases=True, avoid=avoid, min_nodes=3, odd_phase_conf=True)
     orail = G.Opts(max_nodes=mn, phases=True, rails=True, avoid=avoid, min_nodes=3)
     meta = st.fixed_dictionaries({
         "spec": G.systems(o),
